@@ -81,5 +81,14 @@ int main() {
       try { UpperHessenbergSchur<double> sch(H); Eigen::MatrixXd U = sch.matrix_U(), S = sch.matrix_T();
         if (!((U * S * U.transpose() - H).norm() <= 1e-9 * (H.norm() + 1e-300))) { printf("integer Hessenberg trial %ld (n=%d): ||U T U' - H|| = %g\n", trial, n, (U * S * U.transpose() - H).norm()); bad++; }
       } catch (const std::exception&) {} } }
+  // entries in {-1, 0, 1} with one exactly decoupled leading block (an exact zero on the sub-diagonal): the active window then starts at il > 0, and the
+  // slowly converging trailing blocks of this family reach the second exceptional shift (iteration 30 on one eigenvalue)
+  { unsigned long st = 987654321; auto rnd = [&]() { st = st * 6364136223846793005UL + 1442695040888963407UL; return (int)((st >> 33) % 3) - 1; };
+    for (long trial = 0; trial < 600000 && !bad; trial++) { int n = 6 + (int)(trial % 3); Eigen::MatrixXd H = Eigen::MatrixXd::Zero(n, n);
+      for (int i = 0; i < n; i++) for (int j = 0; j < n; j++) if (i <= j + 1) H(i, j) = rnd();
+      H(2 + (int)(trial % 2), 1 + (int)(trial % 2)) = 0;
+      try { UpperHessenbergSchur<double> sch(H); Eigen::MatrixXd U = sch.matrix_U(), S = sch.matrix_T();
+        if (!((U * S * U.transpose() - H).norm() <= 1e-9 * (H.norm() + 1e-300))) { printf("decoupled {-1,0,1} Hessenberg trial %ld (n=%d): ||U T U' - H|| = %g\n", trial, n, (U * S * U.transpose() - H).norm()); bad++; }
+      } catch (const std::exception&) {} } }
   printf(bad ? "REPRODUCED (%d)\n" : "not reproduced (%d)\n", bad); return bad ? 1 : 0;
 }
